@@ -152,11 +152,36 @@ fn _contains_msg_sender_conditions(function_definition: &Box<FunctionDefinition>
         function_definition.body.clone().unwrap().into(),
     );
 
+    //Collect the function calls nested in the arguments of a selfdestruct call.
+    //Passing msg.sender there (ie. `selfdestruct(payable(msg.sender))`) is not a condition on msg.sender
+    let mut selfdestruct_argument_calls: Vec<ast::Node> = vec![];
+    for node in function_body_nodes.clone() {
+        if let Some(Expression::FunctionCall(_, box_identifier, function_args)) = node.expression() {
+            if _is_selfdestruct(box_identifier) {
+                for function_arg in function_args {
+                    selfdestruct_argument_calls.append(&mut ast::extract_target_from_node(
+                        Target::FunctionCall,
+                        function_arg.into(),
+                    ));
+                }
+            }
+        }
+    }
+
     for node in function_body_nodes {
+        if selfdestruct_argument_calls.contains(&node) {
+            continue;
+        }
+
         //We can use unwrap because Target::MemberAccess is an expression
         let expression = node.expression().unwrap();
 
         if let Expression::FunctionCall(_, box_identifier, function_args) = expression {
+            //Skip type conversions (ie. `payable(msg.sender)`), they do not check anything
+            if let Expression::Type(_, _) = *box_identifier {
+                continue;
+            }
+
             //Skip if the function call is a selfdestruct, as it does not affect this vulnerability
             if _is_selfdestruct(box_identifier) {
                 continue;
@@ -165,18 +190,19 @@ fn _contains_msg_sender_conditions(function_definition: &Box<FunctionDefinition>
             for expression in function_args {
                 match expression {
                     //Match for both `function(msg.sender == owner)` or `function(msg.sender != owner)`
-                    Expression::Equal(_, box_expression, _)
-                    | Expression::NotEqual(_, box_expression, _) => {
-                        if let Expression::MemberAccess(_, box_expression, identifier) =
-                            *box_expression
-                        {
-                            //If the member access identifier is "msg.sender"
-                            let Identifier { name: right, .. } = identifier;
-                            if let Expression::Variable(Identifier { name: left, .. }) =
-                                *box_expression
-                            {
-                                if left == "msg" && right == "sender" {
-                                    return true;
+                    Expression::Equal(_, box_expression, box_expression_1)
+                    | Expression::NotEqual(_, box_expression, box_expression_1) => {
+                        //msg.sender can be on either side of the comparison
+                        for operand in [*box_expression, *box_expression_1] {
+                            if let Expression::MemberAccess(_, box_expression, identifier) = operand {
+                                //If the member access identifier is "msg.sender"
+                                let Identifier { name: right, .. } = identifier;
+                                if let Expression::Variable(Identifier { name: left, .. }) =
+                                    *box_expression
+                                {
+                                    if left == "msg" && right == "sender" {
+                                        return true;
+                                    }
                                 }
                             }
                         }
